@@ -158,6 +158,12 @@ pub fn run(cx: &Ctx) {
         vec![super::c02::Chunked { xs: k.xs.clone(), cuts: vec![], merges: vec![] }, super::c02::Chunked { xs: k.xs, cuts: vec![n / 2], merges: vec![] }]
     }).collect();
     cx.run_list(&ExtendPath, kext, "textbook-killer family through extend (whole and in two pieces)");
+    // histories longer than 2^16 and 2^17 in the every-change tier too (counts that no longer fit 16/32-bit
+    // intermediates, products of counts)
+    cx.label("long-history");
+    let long: Vec<Xs> = [(66_000usize, 1u64, 3.0f64), (131_100, 2, 0.0), (262_200, 3, 6.0)].iter().map(|&(n, seed, lk)| Xs { xs: gen::bulk_dataset(n, seed, &gen::Placement { shape: 1, order: 0, ls: 0.0, lk: Some(lk), neg: false }) }).collect();
+    cx.run_list(&var_check(), long.clone(), "three data sets of 66 000, 131 100 and 262 200 observations");
+    cx.run_list(&mean_check(), long, "three data sets of 66 000, 131 100 and 262 200 observations");
     cx.label("textbook-killers");
     cx.run_list(&var_check(), killers(), "textbook-killer family: offset/spread 1e9..3e11, n 4..1000, 3 scales");
     cx.run_list(&mean_check(), killers(), "textbook-killer family");
